@@ -1099,7 +1099,7 @@ func init() {
 		}
 	}
 	register(&Prop{
-		ID: "C12", Level: "exploration", Run: runC12, Cases: cases(256, 256*8), MinNonTrivial: 16,
+		ID: "C12", Level: "exploration", Run: runC12, Cases: cases(256*3, 256*12), MinNonTrivial: 16,
 		Rule: "cases enumerate all 4^4 per-level digest alphabets {1,2,3,large} of an adversarial 4-level digester x collision limits {0,1,2,3,7,255,random} x slab sizes {256,512,1024}; each case is a seeded insert/update/remove/get/has history over 50-600 keys; " +
 			"dictionary semantics and the structural walk (inline groups, external groups, last-level lists, digest filing) are checked after EVERY operation; every insert of a NEW key is predicted by the rule 'refused iff (distinct second-level digests under its first-level digest) - 1 >= limit' " +
 			"and a refusal must be a fatal collision-limit error that allocates/stores/removes nothing and leaves the count unchanged; updates must always be accepted. " +
@@ -1108,7 +1108,7 @@ func init() {
 		Mandatory:   []string{"collision-limit-refusals", "external_groups_seen", "inline_groups_seen", "max-list-len", "updates-at-exhausted-budget"},
 	})
 	register(&Prop{
-		ID: "C13", Level: "exploration", Run: runC13, Cases: cases(16*8, 16*80), MinNonTrivial: 8,
+		ID: "C13", Level: "exploration", Run: runC13, Cases: cases(16*40, 16*200), MinNonTrivial: 8,
 		Rule: "cases = seeded histories (arrays; maps under the default digester and 3 collision profiles incl. last-level lists); at 6 checkpoints per case every enumeration flavour is compared element-by-element with the model's canonical order " +
 			"(arrays: Iterate, IterateReadOnly, IterateRange/IterateReadOnlyRange for all (s,e) when short and slab-boundary-targeted when long, loaded-values, invalid ranges => typed user errors; maps: Iterate, IterateReadOnly, keys, values, read-only keys/values, loaded-values; order = ascending digest vector then insertion sequence), " +
 			"then a mutable iteration overwrites the current element / grows the nested container just yielded and must still yield each pre-mutation element once, then on cold copies partially loaded containers must yield an in-order subsequence and bulk pop the exact reverse. " +
@@ -1117,7 +1117,7 @@ func init() {
 		Mandatory:   []string{"iterations-checked", "ranges-checked", "invalid-ranges-rejected", "mutating-iterations", "overwrites-during-iteration", "child-mutations-during-iteration", "partial-load-iterations", "reverse-pops-checked"},
 	})
 	register(&Prop{
-		ID: "C18", Level: "fault_enumeration", Run: runC18, Cases: cases(16*6, 16*50), MinNonTrivial: 8,
+		ID: "C18", Level: "fault_enumeration", Run: runC18, Cases: cases(16*30, 16*150), MinNonTrivial: 8,
 		Rule: "cases = seeded histories in which 25% of the steps are deliberately invalid requests (index = count, count+1, count+2 for Get/Set/Remove, Insert beyond count+1, absent keys next to present ones, inserts beyond the collision limit, undefined slab ids) on root and nested containers; " +
 			"each rejection must carry the specific error type AND category (user vs fatal), must issue no store/remove/id allocation (storage proxy), must leave container and ancestors valid (walk + reach after every operation), " +
 			"and a twin run that generates but skips the rejected requests must commit byte-identical registers. Fault enumeration: on a cold storage EVERY ledger read, comparator call and hash-input call made by two lookups is failed in turn and must surface as an external error wrapping the injected sentinel. " +
@@ -1126,7 +1126,7 @@ func init() {
 		Mandatory:   []string{"rejected_requests", "twin-register-comparisons", "external-error-injections", "undefined-id-requests", "collision-limit-refusals"},
 	})
 	register(&Prop{
-		ID: "C08", Level: "exploration", Run: runC08, Cases: cases(16*3, 16*24), MinNonTrivial: 8,
+		ID: "C08", Level: "exploration", Run: runC08, Cases: cases(16*24, 16*100), MinNonTrivial: 8,
 		Rule: "each case executes ONE seeded history under 6 schedules of {commit, drop cache, reopen from ledger}: never-until-end, commit every operation, commit+drop-cache every 3, full reopen every 5 (new storage, roots re-obtained by id, child handles re-resolved), drop-cache-only every 2, PRNG mix; " +
 			"in every schedule every return value is compared with the model and the structure walked; all schedules end with a commit and the final registers must be byte-identical across schedules (histories without composite-typed maps) or content-identical (cold rebuild equal to the model; composite bucket). " +
 			"non-trivial = multi-slab container and slabs were re-read from the ledger under the schedules; distinct by hash(config, operation list)",
